@@ -12,8 +12,10 @@ PROPS = {
              '(memdb, LevelDB and LocalDB; one table object or a fresh one per Save) comparing every reply and, after '
              'each applied Save, GetData of every key, every index listing and the primary listing; TLC simulations over '
              '3 keys / 3 index values / 3 saves and seeded random recordings over 5 keys validated by the trace '
-             'specification cover interleavings of several keys; a join-table leg replays generated sequences on a '
-             'JoinTable of two real tables in the thorough tier.',
+             'specification cover interleavings of several keys; a join-table leg (TableJoin.tla) replays TLC-simulated call '
+             'sequences on a real JoinTable over two real tables comparing both member tables and both join-index listings '
+             'after each Save (quick: one call per row and window; thorough: also several calls per row, left deletes mixed '
+             'with right writes, foreign-key changes).',
         note='Observations are made only after a Save whose KV list was applied (nil value = delete, as blockstore does). '
              'Index values are equal-length without the separator so that the prefix match of ListIndex is equality; one '
              'untouched anchor row under every index value makes stale index entries observable. Not compared: reads '
@@ -59,6 +61,24 @@ def run(ctx):
     for sd in range(1 if q else 3):
         bs = ctx.tlc_sim('Table_MC', 'Table_Gen.cfg', num=n, depth=22, seed=ctx.seed * 100 + sd, timeout=3600)
         ctx.replay(b, bs, opts=dict(db=('mem', 'local', 'leveldb')[sd % 3], fresh=sd % 2, salt=10 + sd), par=8, timeout=7200)
+    # join-table leg (TableJoin.tla): a real JoinTable over two real tables
+    jn = 250 if q else 1500
+    if not q:
+        ctx.tlc_mc('TableJoin', 'TableJoin_MC.cfg', workers=2, timeout=3600)
+    # (a) one call per row and window, fk of a saved left row fixed: must agree, also with prefix-related / '-' keys
+    js = ctx.tlc_sim('TableJoin', 'TableJoin_GenSingle.cfg', num=jn, depth=24, seed=ctx.seed * 100 + 50, timeout=3600)
+    ctx.replay(b, js, opts=dict(db='mem', rpk='hostile', fresh=0, salt=20), par=8, timeout=7200)
+    ctx.replay(b, js, opts=dict(db='local', rpk='plain', fresh=1, salt=21), par=8, count=False, timeout=7200)
+    if not q:
+        # (b) plus windows deleting a left row and writing its right row: must agree
+        jd = ctx.tlc_sim('TableJoin', 'TableJoin_GenDelMix.cfg', num=jn, depth=24, seed=ctx.seed * 100 + 51, timeout=3600)
+        ctx.replay(b, jd, opts=dict(db='mem', rpk='hostile', fresh=1, salt=22), par=8, timeout=7200)
+        # (c) several calls per row and window / (d) foreign key of a saved left row changes: JoinTable is known to
+        # mis-maintain its index there (known findings, see known_findings.json); any other shape is reported
+        jm = ctx.tlc_sim('TableJoin', 'TableJoin_GenMulti.cfg', num=2 * jn, depth=24, seed=ctx.seed * 100 + 52, timeout=3600)
+        ctx.replay(b, jm, opts=dict(db='mem', rpk='hostile', fresh=0, salt=23), par=8, timeout=7200)
+        jf = ctx.tlc_sim('TableJoin', 'TableJoin_GenFk.cfg', num=jn // 2, depth=24, seed=ctx.seed * 100 + 53, timeout=3600)
+        ctx.replay(b, jf, opts=dict(db='mem', rpk='plain', fresh=0, salt=24), par=8, timeout=7200)
     ctx.validate_recording(b, 'Table_Trace', 'Table_Trace.cfg', opts=dict(n=15 if q else 150, keys=5, vals=3, pays=3, depth=40),
                            selftest=True, timeout=7200)
 
